@@ -20,6 +20,10 @@
 
 package token
 
+import (
+	"strings"
+)
+
 const (
 	Delimiter = "%"
 )
@@ -40,14 +44,13 @@ func absoluteAlias(a aliaser, path string) string {
 
 // toExpr removes surrounding delimiters
 func toExpr(expr string) (string, bool) {
-	runes := []rune(expr)
-	if len(runes) < 2 {
+	if len(expr) < 2*len(Delimiter) {
 		return "", false
 	}
 
-	if string(runes[0]) != Delimiter || string(runes[len(runes)-1]) != Delimiter {
+	if !strings.HasPrefix(expr, Delimiter) || !strings.HasSuffix(expr, Delimiter) {
 		return "", false
 	}
 
-	return string(runes[1 : len(runes)-1]), true
+	return expr[len(Delimiter) : len(expr)-len(Delimiter)], true
 }
